@@ -16,6 +16,9 @@ pub struct FnDecl {
     /// small-vector even when short, bit 1 = reverse order, bit 2 = first entry twice,
     /// bit 3 = every written type is also listed as read
     pub style: u8,
+    /// number (0..=2) of additional data types private to this function (written by
+    /// it, used by nobody else) - graphs with hundreds of distinct types
+    pub own: u8,
 }
 
 #[derive(Clone, Copy, Debug, PartialEq, Eq)]
@@ -454,7 +457,7 @@ impl GraphSpec {
         json!({
             "family": self.family,
             "fns": self.fns.iter().enumerate().map(|(i, f)| json!({
-                "id": i, "reads": types_to_json(f.reads), "writes": types_to_json(f.writes), "list_style": f.style
+                "id": i, "reads": types_to_json(f.reads), "writes": types_to_json(f.writes), "list_style": f.style, "private_types": f.own
             })).collect::<Vec<_>>(),
             "builder_calls": self.calls.iter().map(|c| json!({
                 "call": match c.kind { EdgeKind::Logic => "add_logic_edge", EdgeKind::Contains => "add_contains_edge" },
@@ -471,6 +474,7 @@ impl GraphSpec {
                 reads: types_from_json(f.get("reads")?)?,
                 writes: types_from_json(f.get("writes")?)?,
                 style: f.get("list_style").and_then(|x| x.as_u64()).unwrap_or(0) as u8,
+                own: f.get("private_types").and_then(|x| x.as_u64()).unwrap_or(0) as u8,
             });
         }
         for c in v.get("builder_calls")?.as_array()? {
